@@ -3,6 +3,7 @@ from typing import Dict
 from openpyxl.utils import column_index_from_string
 
 from excel2pycl.src.cell import Cell
+from excel2pycl.src.exceptions import E2PyclCellException
 
 
 def handle_cell(cell: Cell, titles: Dict[str, int]):
@@ -10,6 +11,8 @@ def handle_cell(cell: Cell, titles: Dict[str, int]):
         return
 
     if isinstance(cell.title, str):
+        if cell.title not in titles:
+            raise E2PyclCellException(f'Unknown worksheet `{cell.title}`')
         cell.title = titles[cell.title]
 
     if isinstance(cell.column, str):
